@@ -639,6 +639,85 @@ def run_all(ctx: common.Ctx):
                  {'text': cmetas[i][0], 'ops': cmetas[i][1], 'case': ccases[i][:1200]})
 
 
+def run_directed(ctx: common.Ctx):
+    """(A) every constructor that takes a meta mapping and indent_by (entries; postings also take indent): the meta
+    items it creates are indented by parent indent + indent_by, for non-default indent_by too.
+    (B) a comment re-indented through its raw text and then re-worded through its owner's comment setter keeps the
+    indentation it had: re-wording must not change an existing line's indentation."""
+    import inspect
+    import random
+    from decimal import Decimal
+    from autobean_refactor import models
+    from autobean_refactor.models import base
+    from harness import doc_checks, gen_docs
+    classes = []
+    for name in sorted(dir(models)):
+        c = getattr(models, name)
+        if isinstance(c, type) and issubclass(c, base.RawTreeModel) and hasattr(c, 'from_value'):
+            ps = inspect.signature(c.from_value).parameters
+            if 'meta' in ps and 'indent_by' in ps:
+                classes.append(c)
+    for cls in classes:
+        sig = inspect.signature(cls.from_value)
+        for _ in range(ctx.scale(4, 30)):
+            r = random.Random(ctx.rng.randrange(1 << 30))
+            indent_by = r.choice(['\t', '  ', '      ', ' \t', '    '])
+            kwargs = {}
+            try:
+                for prm in sig.parameters.values():
+                    if prm.name in ('meta', 'indent_by', 'indent'):
+                        continue
+                    if prm.default is not inspect._empty and r.random() < 0.5:
+                        continue
+                    kwargs[prm.name] = doc_checks._arg(r, cls.__name__, prm.name, True)
+            except KeyError:
+                break
+            kwargs['meta'] = {'kk': Decimal(1), 'll': 'x', 'mm': None}
+            kwargs['indent_by'] = indent_by
+            parent_indent = ''
+            if 'indent' in sig.parameters:
+                parent_indent = r.choice(['  ', '\t', '    '])
+                kwargs['indent'] = parent_indent
+            try:
+                m = cls.from_value(**kwargs)
+            except ValueError:
+                continue
+            ctx.count('ctor_meta_indent_probes')
+            got = [it.indent for it in m.raw_meta]
+            if got != [parent_indent + indent_by] * 3:
+                ctx.monitor_failure('C18:ctor-meta-indent', f'{cls.__name__}.from_value(meta=..., indent_by={indent_by!r}'
+                                    + (f', indent={parent_indent!r}' if parent_indent else '') + f') created meta items indented by {got}, '
+                                    f'expected {parent_indent + indent_by!r} (parent indent + indent_by)',
+                                    {'class': cls.__name__, 'indent_by': indent_by, 'indent': parent_indent, 'printed': gen_docs.print_model(m)})
+                break
+    text = ('2000-01-01 *\n    ; lead\n    Assets:A  1 USD\n      ; mlead\n      kk: 1\n      ; mtrail\n    ; trail\n'
+            '2000-01-02 open Assets:B\n  ; m2\n  aa: 2\n')
+    for _ in range(ctx.scale(12, 80)):
+        r = random.Random(ctx.rng.randrange(1 << 30))
+        f = gen_docs.parse_ok(text, True)
+        owners = [(p_, m) for p_, m in doc_checks.treewalk.walk(f) if hasattr(m, 'raw_leading_comment') and hasattr(m, 'leading_comment')]
+        cands = [(p_, m, side) for p_, m in owners for side in ('leading', 'trailing') if getattr(m, f'raw_{side}_comment') is not None]
+        if not cands:
+            break
+        p_, m, side = r.choice(cands)
+        c = getattr(m, f'raw_{side}_comment')
+        new_indent = r.choice(['\t', '  ', '        ', ''])
+        try:
+            c.raw_text = r.choice([f'{new_indent}; re', f'{new_indent}; re\n{new_indent}; two'])
+        except Exception:
+            continue
+        words = r.choice(['new words', 'a\nb', 'x\n\ny'])
+        setattr(m, f'{side}_comment', words)
+        ctx.count('reindent_then_reword_probes')
+        lines = getattr(m, f'raw_{side}_comment').raw_text.split('\n')
+        bad = [ln for ln in lines if ind(ln) != new_indent]
+        if bad:
+            ctx.monitor_failure('C18:reword-reindents', f'{p_}.{side}_comment = {words!r} after its raw text was given the indentation '
+                                f'{new_indent!r}: the re-worded lines are indented {[ind(ln) for ln in lines]}',
+                                {'text': text, 'owner': p_, 'side': side, 'new_indent': new_indent, 'words': words})
+            break
+
+
 def run(ctx: common.Ctx):
     ctx.rule = ('generated ledgers (entries and postings with no / uniform / tab / disagreeing meta indents, interleaved '
                 'comments, CRLF) parsed with the real Parser; per ledger a seeded history of indent_by assignments, '
@@ -653,10 +732,12 @@ def run(ctx: common.Ctx):
                         'str.splitlines as used by BlockComment._splitlines is an oracle (C12)']
     ctx.require_coq(['properties/C18'], extra_targets=['IndentRun'])
     run_all(ctx)
+    run_directed(ctx)
 
 
 def search(ctx: common.Ctx):
     run_all(ctx)
+    run_directed(ctx)
 
 
 def replay(ctx, path):
